@@ -228,6 +228,86 @@ def gen_schema_x(rng, idx, max_depth=3, defaults=True, top_mand=0.25, uniques=0.
     return XSchema("%s%d" % (prefix, idx), top)
 
 
+def gen_schema_nested(rng, idx, prefix="vn"):
+    """Directed family: a case that holds a NESTED choice next to constrained siblings (mandatory leaf, min/max-elements,
+    mandatory choice, list with unique), the nested choice mostly first in schema order, so that the first instantiated node of the
+    outer choice often belongs to the inner case while a constraint of the outer case is what a mutation violates."""
+    nm = tg._Names()
+    S = SNode
+
+    def plain(mand=False, dflt=False):
+        ty = tg.rand_type(rng)
+        n = S("leaf", nm.new("f"), ty=ty)
+        if mand:
+            n.mandatory = True
+        elif dflt and ty.name != "empty":
+            n.dflt = rng.choice(ty.pool())
+        return n
+
+    def inner_choice(depth):
+        cases = []
+        for _ in range(rng.randrange(2, 4)):
+            kids = [plain(dflt=rng.random() < 0.2)]
+            if rng.random() < 0.3:
+                kids.append(S("leaflist", nm.new("ll"), ty=tg.rand_type(rng, allow_empty=False)))
+            if depth < 2 and rng.random() < 0.25:
+                kids.insert(rng.randrange(len(kids) + 1), inner_choice(depth + 1))
+            cases.append(S("case", nm.new("ca"), kids=kids))
+        return S("choice", nm.new("ch"), kids=cases)
+
+    def constrained():
+        r = rng.random()
+        if r < 0.3:
+            return plain(mand=True)
+        if r < 0.5:
+            n = S("leaflist", nm.new("ll"), ty=tg.rand_type(rng, allow_empty=False))
+            n.min = rng.choice([1, 2]); n.max = rng.choice([0, 3])
+            return n
+        if r < 0.7:
+            k = S("leaf", nm.new("k"), ty=tg.rand_type(rng, key=True), iskey=True)
+            a, b = plain(), plain(dflt=True)
+            n = S("list", nm.new("l"), keys=[k.name], kids=[k, a, b])
+            n.min = rng.choice([0, 1, 2]); n.max = rng.choice([0, 3])
+            n.uniques = [[a]] if a.ty.name != "empty" and rng.random() < 0.6 else []
+            return n
+        if r < 0.85:
+            c = S("choice", nm.new("ch"), kids=[S("case", nm.new("ca"), kids=[plain()]), S("case", nm.new("ca"), kids=[plain()])])
+            c.mandatory = True
+            return c
+        return S("container", nm.new("c"), presence=rng.random() < 0.5, kids=[plain(mand=True), plain()])
+
+    def outer_case():
+        kids = [constrained() for _ in range(rng.randrange(1, 4))]
+        pos = 0 if rng.random() < 0.7 else rng.randrange(len(kids) + 1)
+        kids.insert(pos, inner_choice(1))
+        return S("case", nm.new("ca"), kids=kids)
+
+    def outer_choice():
+        cases = [outer_case()] + [S("case", nm.new("ca"), kids=[plain()]) for _ in range(rng.randrange(1, 3))]
+        rng.shuffle(cases)
+        c = S("choice", nm.new("ch"), kids=cases)
+        c.mandatory = rng.random() < 0.3
+        return c
+
+    top = []
+    if rng.random() < 0.5:
+        top.append(outer_choice())
+    k = S("leaf", nm.new("k"), ty=tg.rand_type(rng, key=True), iskey=True)
+    top.append(S("container", nm.new("c"), presence=True, kids=[plain(), outer_choice()]))
+    if rng.random() < 0.6:
+        lst = S("list", nm.new("l"), keys=[k.name], kids=[k, outer_choice(), plain()])
+        lst.uniques = []
+        top.append(lst)
+    for n in top:
+        if n.kind == "choice":
+            n.mandatory = False
+    s = XSchema("%s%d" % (prefix, idx), top)
+    for n in s.nodes:
+        if n.kind == "list" and not hasattr(n, "uniques"):
+            n.uniques = []
+    return s
+
+
 # ----------------------------------------------------------------------------------------------------------------
 # valid instances
 # ----------------------------------------------------------------------------------------------------------------
